@@ -61,10 +61,12 @@ class BloomSystem(System):
                     seen.add((m, k, s))
                     d = depth
                     if tier == "quick":
-                        if prop in ("C05", "C19") and s not in (("table", "fnv", "dec_int") if prop == "C05" else ("table", "fnv")):
+                        if prop in ("C05", "C19") and s not in ("table", "fnv"):
                             continue  # export/load and queries do not depend on the strategy beyond the probe positions
                         if prop in ("C01", "C14") and s not in ("table", "fnv") and n not in (1, 2, 3, 5, 8, 12):
                             continue  # the other four strategies on half of the geometries
+                        if prop == "C14" and s in ("sha256", "dec_bytes"):
+                            continue
                         if prop == "C01" and s not in ("table", "fnv"):
                             d = depth - 1
                     cfgs.append(dict(n=n, p=p, strat=s, depth=d, seed=seed, m=m, k=k, cost=600 * 6 ** (d - 3)))
